@@ -1,7 +1,10 @@
 use core::cell::UnsafeCell;
 use core::num::NonZeroUsize;
 use core::sync::atomic::Ordering::{AcqRel, Acquire, Relaxed, Release};
+#[cfg(not(feature = "verif-hooks"))]
 use core::sync::atomic::{AtomicBool, AtomicUsize};
+#[cfg(feature = "verif-hooks")]
+use crate::verif::{AtomicBool, AtomicUsize};
 
 #[cfg(any(feature = "async", doc))]
 use crate::iterators::{
